@@ -14,7 +14,7 @@
     satisfied by its environment value. The single-option and exclusion lemmas are kept.
     NOT covered by the theorems: lines with an unreadable or Q1 token; covered on every run by
     comparing the implementation with itself under every subset of set variables. *)
-From MowCli Require Import Base Nfa Matchers Apply View ApplyProofs TermProofs ViewProofs AccountProofs GroupProofs EnvProofs.
+From MowCli Require Import Base Nfa Matchers Apply View ApplyProofs TermProofs ViewProofs AccountProofs GroupProofs EnvProofs Values Flow Cmd ProgEnvProofs.
 
 Theorem C12_single_option_monotone :
   forall (D D' : optinfo) o args ro r,
@@ -94,6 +94,28 @@ Theorem C12_env_only_enlarges_on_every_line :
     fsm_apply D g start a = AOk bs -> exists bs', fsm_apply D' g start a = AOk bs'.
 Proof. exact env_only_enlarges_all. Qed.
 
+(** ... and for programs: the same declarations and the same spec initialised under two environments compile to the
+    same automaton; when the second environment backs every option the first one backs (each option's variable list
+    yields a valid value under the second whenever it does under the first), every command line the program
+    accepts under the first it accepts under the second. *)
+Theorem C12_same_program_two_environments :
+  forall (parse_float : str -> option str) (g1 g2 : str -> str) ds spec i1,
+    do_init parse_float g1 ds spec = IOk i1 ->
+    exists i2, do_init parse_float g2 ds spec = IOk i2 /\
+               i_graph i2 = i_graph i1 /\ i_start i2 = i_start i1 /\
+               same_names (optinfo_of (i_opts i1)) (optinfo_of (i_opts i2)).
+Proof. exact do_init_two_envs. Qed.
+
+Theorem C12_env_only_enlarges_for_programs :
+  forall (parse_float : str -> option str) (g1 g2 : str -> str) ds spec i1 i2 argv bs,
+    do_init parse_float g1 ds spec = IOk i1 -> do_init parse_float g2 ds spec = IOk i2 ->
+    (forall o, oi_fromenv (optinfo_of (i_opts i1)) o = true -> oi_fromenv (optinfo_of (i_opts i2)) o = true) ->
+    fsm_apply (optinfo_of (i_opts i1)) (i_graph i1) (i_start i1) argv = AOk bs ->
+    exists bs', fsm_apply (optinfo_of (i_opts i2)) (i_graph i2) (i_start i2) argv = AOk bs'.
+Proof. exact env_only_enlarges_program. Qed.
+
+Print Assumptions C12_same_program_two_environments.
+Print Assumptions C12_env_only_enlarges_for_programs.
 Print Assumptions C12_group_monotone_on_every_line.
 Print Assumptions C12_every_run_survives_on_every_line.
 Print Assumptions C12_env_only_enlarges_on_every_line.
@@ -141,4 +163,18 @@ Example C12_d8_repaired :
   (m_group (mk false) [0; 1] a false, m_group (mk true) [0; 1] a false)
   = (Some ([], false, [(KO 1, lit "true"); (KO 0, lit "7"); (KO 1, lit "v")]),
      Some ([], false, [(KO 1, lit "true"); (KO 0, lit "7"); (KO 1, lit "v")])).
+Proof. vm_compute. reflexivity. Qed.
+
+(** the program-level statement at work: the D8 witness as a program, with and without O in the environment *)
+Example C12_program_example :
+  let pf := fun _ : str => None in
+  let ds := [mkDecl true KStrings (lit "o") [] (lit "O") false (VStrs []) false;
+             mkDecl true KBool (lit "a") [] [] false (VBool false) false] in
+  let without := fun _ : str => [] in
+  let with_o := fun k : str => if str_eqb k (lit "O") then lit "ev" else [] in
+  let accepted ge := match do_init pf ge ds (lit "-oa") with
+                     | IOk i => match fsm_apply (optinfo_of (i_opts i)) (i_graph i) (i_start i) [lit "-aa=true"; lit "-o=7"] with
+                                | AOk _ => true | _ => false end
+                     | _ => false end in
+  (accepted without, accepted with_o) = (true, true).
 Proof. vm_compute. reflexivity. Qed.
